@@ -219,7 +219,44 @@ def prop_C04(run):
                       "RNG data directive predicate, no truncation before the test, constrained size, typename tables"]
 
 
+def prop_C06(run):
+    import rules_mpt
+    rules_mpt.build_output_rules(run)
+    rules_mpt.pipeline(run)
+    rules_mpt.bitvec_rules(run)
+    n = lim2_obligations(run, only=lambda key, f: bool(__import__("re").search(r"asm::output|overlap_checker|resolver::iter|bitvec::BitVec::write|resolver::(res|align|addr)::|defs::bankdef", key)))
+    run.floor("LIM2", "layout arithmetic sites", n, 10)
+    run.rules_run += ["MPT every emission dominated by check_bank_usage, check_bank_output(size, write) and the overlap checker with the same position/size",
+                      "PIPE phase order", "LIM2 on the layout arithmetic"]
+
+
+def prop_C12(run):
+    import rules_mpt, rules_unit
+    rules_mpt.bitvec_rules(run)
+    rules_mpt.build_output_rules(run)
+    rules_unit.unit(run)
+    rules_unit.src_bind(run)
+    n = lim2_obligations(run, only=lambda key, f: "symbol_format" in key or "format_addrspan" in key)
+    rules_mpt.symbol_listing(run)
+    run.rules_run += ["MPT span = write; who may write bits; listings sort spans by offset; symbol listing skips no_emit and sorts by declaration index", "UNIT/SRC for excerpts", "LIM2 on the Mesen offset"]
+
+
+def prop_C01(run):
+    import rules_mpt, rules_rng, rules_err
+    rules_mpt.rejections(run)
+    rules_mpt.pipeline(run)
+    rules_mpt.build_output_rules(run)
+    # R4: out-of-range arguments are rejected (tables of C04) and never bound unchecked
+    rules_rng.range_tables(run)
+    reach = reach_roots(run)
+    rules_err.err5(run, reach)
+    run.rules_run += ["REJ no-match / tie / undefined symbol are errors on every path", "PIPE phases in order behind their success edges", "MPT emission sites", "RNG range predicates", "ERR5 no rejection swallowed"]
+
+
 PROPS = {
+    "C01": prop_C01,
+    "C06": prop_C06,
+    "C12": prop_C12,
     "C04": prop_C04,
     "C05": prop_C05,
     "C19": prop_C19,
